@@ -299,7 +299,8 @@ func (c *regCtl) tssAck(t *rapid.T) {
 	w := m.W
 	var cands []*bridge.Pkt
 	for _, p := range w.Pkts {
-		if p.SrcIdx >= 0 && p.P.DstChain == bridge.TSSName && !p.Acked {
+		// (packets already acknowledged stay candidates: a further acknowledgement is as much subject to the rule as the first)
+		if p.SrcIdx >= 0 && p.P.DstChain == bridge.TSSName {
 			cands = append(cands, p)
 		}
 	}
@@ -329,6 +330,9 @@ func (c *regCtl) tssAck(t *rapid.T) {
 		cls = "tss-account-" + cls
 	} else if s.Acc.Equals(w.TSS.Acc) {
 		cls = "former-tss-account-" + cls
+	}
+	if p.Acked {
+		cls = "already-acked-" + cls
 	}
 	out := w.DeliverDumped(p.SrcIdx, s, packettypes.NewMsgAcknowledgement(p.Bz, ackBz, c.tssProofField(t), bridge.H(0, 1), s.Acc))
 	if !isTSS {
